@@ -16,6 +16,7 @@ import (
 
 func main() {
 	repo := flag.String("repo", "/repo", "repository root")
+	sigs := flag.Bool("sigs", false, "print the parameter types of the exported top-level functions: <ver> <name>(<type>, ...)")
 	flag.Parse()
 	var out []string
 	for _, ver := range []struct{ name, dir string }{{"v1", ""}, {"v2", "v2"}, {"v3", "v3"}} {
@@ -47,6 +48,23 @@ func main() {
 							name = id.Name + "." + name
 						}
 					}
+					if *sigs {
+						if fd.Recv != nil {
+							continue
+						}
+						var ps []string
+						for _, fl := range fd.Type.Params.List {
+							n := len(fl.Names)
+							if n == 0 {
+								n = 1
+							}
+							for k := 0; k < n; k++ {
+								ps = append(ps, typeString(fl.Type))
+							}
+						}
+						out = append(out, ver.name+" "+name+"("+strings.Join(ps, ", ")+")")
+						continue
+					}
 					out = append(out, ver.name+" "+name)
 				}
 			}
@@ -54,4 +72,24 @@ func main() {
 	}
 	sort.Strings(out)
 	fmt.Println(strings.Join(out, "\n"))
+}
+
+func typeString(e ast.Expr) string {
+	switch x := e.(type) {
+	case *ast.Ident:
+		return x.Name
+	case *ast.StarExpr:
+		return "*" + typeString(x.X)
+	case *ast.SelectorExpr:
+		return typeString(x.X) + "." + x.Sel.Name
+	case *ast.ArrayType:
+		return "[]" + typeString(x.Elt)
+	case *ast.Ellipsis:
+		return "..." + typeString(x.Elt)
+	case *ast.FuncType:
+		return "func"
+	case *ast.InterfaceType:
+		return "interface"
+	}
+	return "?"
 }
